@@ -9,6 +9,7 @@ import EsbuildModel.Impl.CssHex
 import EsbuildModel.Impl.Split
 import EsbuildModel.Impl.Determinism
 import EsbuildModel.Impl.Shake
+import EsbuildModel.Impl.TsEnum
 
 open EsbuildModel
 
@@ -25,6 +26,7 @@ def dispatch (kernel : String) (args : List String) : String :=
   | "split" => Split.driver args
   | "det" => Det.driver args
   | "shake" => Shake.driver args
+  | "tsenum" => TsEnum.driver args
   | _ => "bad-kernel"
 
 partial def loop (hin hout : IO.FS.Stream) : IO Unit := do
